@@ -15,6 +15,15 @@
 //!       computes it: `ce ced lde cols tpd layers remdom remcoef wf qok`, or `panic` when a
 //!       constructor refuses the tuple; compared with the Lean model Winter/Model/Protocol.lean.
 //!
+//!   refp <field> <hasher> <q.b.g.x.f.r> <trace seed> <AirDesc line> <trace>
+//!       (trace: columns separated by `/`, canonical cell values separated by `,`) the REAL prover
+//!       (non-concurrent build) on exactly this main segment: the bytes of `proof.to_bytes()` in hex, or
+//!       `panic` / `err:<kind>`. The Lean driver runs the executable reference prover `refProve`
+//!       (Winter/Model/RefProver.lean) on the same description, trace and options and must print the SAME
+//!       bytes (modelled: f64 with Rp64_256 / RpJive64_256, f62 with Rp62_248, no auxiliary segment).
+//!       Oracle: for an admissible configuration and a trace the reference predicate accepts, proving
+//!       succeeds and the real `verify` accepts the proof (before and after the byte round trip).
+//!
 //! Oracle (independent of the library): for an admissible op (description valid, options accepted
 //! by the documented constructor rules, blowup >= the blowup the declared degrees need, FRI schedule
 //! well-formed, queries < LDE size, hasher/field/extension combination supported) the outcome must
@@ -260,6 +269,216 @@ fn exec_run(t: &[&str]) -> Outcome {
     }
     o.out = format!("{} {} {}{}", v1, v2, info, seq_label);
     o
+}
+
+
+// ------------------------------------------------------------------------------------ refp (reference prover tie)
+fn trace_text(t: &TraceData) -> String {
+    t.iter().map(|c| c.iter().map(|v| v.to_string()).collect::<Vec<_>>().join(",")).collect::<Vec<_>>().join("/")
+}
+
+fn parse_trace(s: &str) -> Option<TraceData> {
+    s.split('/').map(|c| c.split(',').map(|v| v.parse::<u128>().ok()).collect::<Option<Vec<u128>>>()).collect()
+}
+
+fn refp_line(field: FieldId, hash: HashId, o: &OptSpec, seed: u64, d: &AirDesc, trace: &TraceData) -> String {
+    format!("refp {} {} {} {} {} {}", field.name(), hash.name(), o.to_text(), seed, d.to_line(), trace_text(trace))
+}
+
+/// `refp <field> <hasher> <opts> <seed> <desc> <trace>`
+fn exec_refp(t: &[&str]) -> Outcome {
+    if t.len() != 6 {
+        return Outcome::ok("bad-op");
+    }
+    let op = match parse_run(&t[..5]) {
+        Ok(op) => op,
+        Err(_) => return Outcome::ok("bad-op"),
+    };
+    let trace = match parse_trace(t[5]) {
+        Some(tr) => tr,
+        None => return Outcome::ok("bad-op"),
+    };
+    if !op.hash.compatible(op.field) || op.desc.validate().is_err() || op.desc.aux.is_some() {
+        return Outcome::ok("bad-op");
+    }
+    if trace.len() != op.desc.width || trace.iter().any(|c| c.len() != op.desc.trace_len) {
+        return Outcome::ok("bad-op");
+    }
+    let modulus = op.field.modulus();
+    if trace.iter().any(|c| c.iter().any(|v| *v >= modulus)) {
+        return Outcome::ok("bad-op");
+    }
+    let mut o = Outcome::default();
+    let pubs = pub_inputs(&op.desc, op.field, &trace);
+    let valid = is_valid(&op.desc, op.field, &trace, &pubs).is_ok();
+    let adm = admissible(&op) && valid;
+    if !op.opts.accepted() {
+        // ProofOptions::new panics
+        o.out = "panic".into();
+        return o;
+    }
+    let desc = op.desc.clone();
+    let proved = guarded(|| prove_ex(&desc, &trace, op.field, &op.opts, op.hash));
+    let proof = match proved {
+        Err(info) => {
+            o.out = "panic".into();
+            if adm {
+                o = o.fail(format!("c01.refp.prove.panic@{}", panic_file(&info)), format!("panic at {}", info));
+            }
+            return o;
+        },
+        Ok(out) => match out.proof {
+            Err(e) => {
+                o.out = format!("err:{}", prover_error_kind(&e));
+                if adm {
+                    o = o.fail(format!("c01.refp.prove.err.{}", prover_error_kind(&e)), format!("{:?}", e));
+                }
+                return o;
+            },
+            Ok(p) => p,
+        },
+    };
+    let bytes = proof.to_bytes();
+    o.out = hex(&bytes);
+    // the independent oracle: the real verifier accepts the honest proof, also after the round trip
+    if adm {
+        let acceptable = AcceptableOptions::OptionSet(vec![op.opts.to_options()]);
+        match guarded(|| verify(&desc, op.field, op.hash, &pubs, proof, &acceptable)) {
+            Ok(Ok(())) => {},
+            Ok(Err(e)) => o = o.fail(format!("c01.refp.verify.err.{}", verifier_error_kind(&e)), format!("{:?}", e)),
+            Err(info) => o = o.fail(format!("c01.refp.verify.panic@{}", panic_file(&info)), format!("panic at {}", info)),
+        }
+        match guarded(|| Proof::from_bytes(&bytes)) {
+            Ok(Ok(p2)) => match guarded(|| verify(&desc, op.field, op.hash, &pubs, p2, &acceptable)) {
+                Ok(Ok(())) => {},
+                Ok(Err(e)) => o = o.fail(format!("c01.refp.reverify.err.{}", verifier_error_kind(&e)), format!("{:?}", e)),
+                Err(info) => o = o.fail(format!("c01.refp.reverify.panic@{}", panic_file(&info)), format!("panic at {}", info)),
+            },
+            _ => o = o.fail("c01.refp.parse", "Proof::from_bytes(to_bytes) failed"),
+        }
+    }
+    o
+}
+
+/// descriptions for the reference-prover tie: every assertion kind, periodic columns (also inside the
+/// constraint degree), more than one exemption with a junk tail, degrees 1..5, 1..4 columns, degenerate columns
+fn refp_descs(rng: &mut Rng, count: usize, max_log_len: u32) -> Vec<AirDesc> {
+    let mut v: Vec<AirDesc> = vec![];
+    for n in [8usize, 16, 32] {
+        v.push(power_desc(n, 2, 1, 0));
+        v.push(power_desc(n, 3, 2, 2));
+        v.push(feature_desc(n, 2, 2, 1, vec![3, 5, 3, 5], false, 0, false, 0));
+    }
+    v.push(power_desc(8, 5, 1, 4));
+    v.push(power_desc(16, 4, 3, 0));
+    v.push(wide_desc(4, 8, 3, 0, false));
+    v.push(wide_desc(3, 16, 2, 0, false));
+    // periodic column in a constraint (degree with a cycle), periodic assertion on a cyclic column, sequence assertion
+    let e = Expr::add(Expr::mul(Expr::Per(0), Expr::Cur(0)), Expr::Const(3));
+    v.push(AirDesc {
+        width: 2,
+        trace_len: 8,
+        exemptions: 1,
+        tail_junk: false,
+        periodic: vec![vec![3u128, 5, 7, 11]],
+        cols: vec![ColGen::Step { init: None, expr: e.clone() }, ColGen::Cyc(2)],
+        constraints: vec![Constraint { degree: Degree { base: 1, cycles: vec![4] }, expr: Expr::sub(Expr::Nxt(0), e) }],
+        assertions: vec![AssertDesc::sequence(0, 1, 4), AssertDesc::periodic(1, 0, 2), AssertDesc::single(0, 0)],
+        aux: None,
+    });
+    // two periodic columns whose interpolants have vanishing leading coefficients
+    let e = Expr::add(Expr::mul(Expr::Per(0), Expr::Cur(0)), Expr::Per(1));
+    v.push(AirDesc {
+        width: 1,
+        trace_len: 16,
+        exemptions: 1,
+        tail_junk: false,
+        periodic: vec![vec![3, 5, 3, 5], vec![7, 7]],
+        cols: vec![ColGen::Step { init: None, expr: e.clone() }],
+        constraints: vec![Constraint { degree: Degree { base: 1, cycles: vec![4] }, expr: Expr::sub(Expr::Nxt(0), e) }],
+        assertions: vec![AssertDesc::single(0, 0), AssertDesc::single(0, 15)],
+        aux: None,
+    });
+    // degenerate: constant columns, a fixed point
+    v.push(AirDesc {
+        width: 2,
+        trace_len: 8,
+        exemptions: 1,
+        tail_junk: false,
+        periodic: vec![],
+        cols: vec![ColGen::Const(Some(7)), ColGen::Const(None)],
+        constraints: vec![
+            Constraint { degree: Degree::new(1), expr: Expr::sub(Expr::Nxt(0), Expr::Cur(0)) },
+            Constraint { degree: Degree::new(1), expr: Expr::sub(Expr::Nxt(1), Expr::Cur(1)) },
+        ],
+        assertions: vec![AssertDesc::single(0, 0), AssertDesc::periodic(1, 1, 2)],
+        aux: None,
+    });
+    let bud = Budget { min_log_len: 3, max_log_len, max_width: 4, max_degree: 3, aux_pct: 0, lagrange_pct: 0, exemptions: true, degenerate: false, sequences: true };
+    let mut guard = 0;
+    while v.len() < count && guard < 20 * count {
+        guard += 1;
+        let b = Budget { max_degree: *rng.pick(&[1usize, 2, 2, 3, 3, 4]), degenerate: guard % 9 == 0, ..bud.clone() };
+        let d = random_desc(rng, &b);
+        if d.aux.is_none() && d.validate().is_ok() {
+            v.push(d);
+        }
+    }
+    v.into_iter().filter(|d| d.validate().is_ok() && d.aux.is_none()).take(count).collect()
+}
+
+/// the `refp` op lines: descriptions x option sets (blowups, folding factors, remainder degrees, grinding,
+/// extension degrees, 1.. queries) with small LDE domains, mostly f64/Rp64_256
+fn refp_ops(rng: &mut Rng, tier: Tier, emit: &mut dyn FnMut(String)) {
+    let quick = tier == Tier::Quick;
+    // the Lean model of the Rescue permutation costs about 15 ms per call and a proof needs about 4.5 calls per
+    // LDE point: the LDE domains are kept at 16..64 points in the quick tier (a few of 128)
+    let (count, max_log) = if quick { (230usize, 4u32) } else { (700, 5) };
+    let sizes: &[usize] = if quick { &[16, 16, 32, 16, 32, 16, 32, 64, 16, 32, 16, 32, 16, 64, 32, 16] } else { &[16, 32, 64, 32, 128, 64, 32, 256, 64, 128] };
+    let descs = refp_descs(rng, count, max_log);
+    for (i, d) in descs.iter().enumerate() {
+        let (field, hash) = match i % 10 {
+            7 => (FieldId::F64, HashId::RpJive64_256),
+            8 | 9 => (FieldId::F62, HashId::Rp62_248),
+            _ => (FieldId::F64, HashId::Rp64_256),
+        };
+        // the generators of field-specific material (degenerate columns) depend on the field
+        let d = if i >= 16 && i % 10 >= 8 {
+            let b = Budget { min_log_len: 3, max_log_len: max_log, max_width: 3, max_degree: 2, aux_pct: 0, lagrange_pct: 0, exemptions: true, degenerate: false, sequences: true };
+            let x = random_desc_for(rng, &b, field);
+            if x.aux.is_none() && x.validate().is_ok() { x } else { d.clone() }
+        } else {
+            d.clone()
+        };
+        let want = if quick && i % 53 == 52 { 128 } else { sizes[i % sizes.len()] };
+        let lim = want.max(d.trace_len * d.min_blowup());
+        let mut o = random_opts(rng, &d, field, lim);
+        // few queries (the openings are the cheap part), grinding on a good third, every extension degree
+        o.queries = o.queries.min(1 + (i % 7));
+        o.grinding = if i % 3 == 0 { 1 + (i as u32 / 3) % 6 } else { 0 };
+        o.ext = 1 + (i % 3) as u8;
+        if !field.supports_ext(o.ext) {
+            o.ext = 1;
+        }
+        let seed = rng.u64() % 1_000_000;
+        let trace = gen_trace(&d, field, seed);
+        emit(refp_line(field, hash, &o, seed, &d, &trace));
+    }
+    // what the prover refuses: an ill-formed FRI schedule, an invalid trace (debug build), rejected options
+    let d = power_desc(8, 2, 1, 0);
+    let t = gen_trace(&d, FieldId::F64, 5);
+    emit(refp_line(FieldId::F64, HashId::Rp64_256, &OptSpec::new(2, 4, 0, 1, 4, 0), 5, &d, &t));
+    emit(refp_line(FieldId::F64, HashId::Rp64_256, &OptSpec::new(2, 2, 0, 1, 16, 0), 5, &d, &t));
+    emit(refp_line(FieldId::F64, HashId::Rp64_256, &OptSpec::new(0, 4, 0, 1, 2, 1), 5, &d, &t));
+    emit(refp_line(FieldId::F64, HashId::Rp64_256, &OptSpec::new(2, 4, 0, 1, 2, 2), 5, &d, &t));
+    let mut bad = t.clone();
+    bad[0][3] = (bad[0][3] + 1) % FieldId::F64.modulus();
+    emit(refp_line(FieldId::F64, HashId::Rp64_256, &OptSpec::new(2, 4, 0, 1, 2, 1), 5, &d, &bad));
+    let mut bad = t.clone();
+    bad[0][7] = (bad[0][7] + 1) % FieldId::F64.modulus();
+    emit(refp_line(FieldId::F64, HashId::Rp64_256, &OptSpec::new(2, 4, 0, 1, 2, 1), 5, &d, &bad));
+    emit("refp f64 rp64_256 2.4.0.1.2.1 5 garbage 1,2".into());
+    emit("refp f64".into());
 }
 
 // ------------------------------------------------------------------------------------ glue
@@ -1050,6 +1269,10 @@ impl Prop for P {
         let real_emit = emit;
         let emit: &mut dyn FnMut(String) = &mut |l| all.push(l);
         boundary_ops(rng, tier, emit);
+        {
+            let mut refp_rng = rng.fork();
+            refp_ops(&mut refp_rng, tier, emit);
+        }
         glue_ops(rng, n / 2, emit);
         // random descriptions x random admissible options x fields x hashers
         for i in 0..n {
@@ -1085,6 +1308,7 @@ impl Prop for P {
         match t.first().copied() {
             Some("run") => exec_run(&t[1..]),
             Some("glue") => exec_glue(&t[1..]),
+            Some("refp") => exec_refp(&t[1..]),
             _ => Outcome::ok("bad-op"),
         }
     }
@@ -1113,13 +1337,17 @@ impl Prop for P {
                 }
             }
             format!("run.{}.{}.x{}:{}", t[1], t[2], ext, verdict.join("+"))
+        } else if t.first() == Some(&"refp") && t.len() >= 4 {
+            let ext = t[3].split('.').nth(3).unwrap_or("?");
+            let verdict = if out == "panic" || out == "bad-op" || out.starts_with("err:") { out.split(':').next().unwrap_or("") } else { "proof" };
+            format!("refp.{}.{}.x{}:{}", t[1], t[2], ext, verdict)
         } else {
             format!("{}:{}", t.first().unwrap_or(&""), if out == "panic" { "panic" } else if out == "bad-op" { "bad-op" } else { "ok" })
         }
     }
 
     fn rule(&self) -> &'static str {
-        "distinct op lines that are not bad-op; a run op is one (description, trace seed, options, field, hasher) tuple proved and verified twice, a glue op is one parameter tuple pushed through the real constructors and the Lean model"
+        "distinct op lines that are not bad-op; a run op is one (description, trace seed, options, field, hasher) tuple proved and verified twice, a glue op is one parameter tuple pushed through the real constructors and the Lean model, a refp op is one (description, trace, options, field, hasher) tuple proved by the real prover and by the Lean reference prover (bytes compared) and verified twice"
     }
 
     fn panic_site(&self, line: &str) -> Option<String> {
